@@ -16,12 +16,7 @@ META = {
 }
 
 # Defects demonstrated on the unchanged tree by this check (see the report to the integrator).
-PROPOSED_KNOWN = [
-    # the defects found earlier by this check were fixed in /repo (known-findings.json, kind "fixed"); the "head" model is the code before those fixes
-    {"kind": "known",
-     "signature": {"fam": "cut", "cause": "content-free-line-with-one-token-not-removed", "detail": "head-of-token-spanning-lines", "next": "text"},
-     "what": "parser.go ParseTemplateSource: the line that holds only spaces and the START of a {%% %%} spanning lines keeps its spaces when non-space text directly follows the end of the statement: ` {%% a := 1<LF>%%}x` renders ` x` (cutSpaces(firstText, text) gives up because `text`, which lies on a later line, is not blank)"},
-]
+PROPOSED_KNOWN = []   # every defect found by this check was fixed in /repo (known-findings.json, kind "fixed")
 
 FAMS = ["cut"]
 QUICK_ALPHA = {"x", "sp", "nl", "cmt", "cmtml", "if", "end", "show7", "stmtsml"}
